@@ -25,7 +25,19 @@ EXTENDS Integers, Sequences, TLC
 
 VARIABLE u
 
-Classes == {"SPC", "PCT", "AMP", "LT", "GT", "DQ", "BS", "NA", "C1", "LS"}
+(* Further non-ASCII classes, distinguished by what quoting functions other   *)
+(* than encoding/json's make of them (strconv.Quote writes non-printable runes *)
+(* above U+FFFF as \UXXXXXXXX, which is not JSON):                            *)
+(*   AP  astral, printable           U+1F600                                  *)
+(*   AN  astral, not printable       U+E0067 (tag character)                  *)
+(*   AX  plane-16 private use        U+10FFFD                                 *)
+(*   ZW  BMP, not printable          U+200B     BOM  U+FEFF     PS  U+2029     *)
+(*   NEL C1 control                  U+0085                                   *)
+(* net/url and encoding/json treat all of them like any non-ASCII character    *)
+(* (PS is escaped by JSON like LS).                                           *)
+MoreNonAscii == {"AP", "AN", "AX", "ZW", "BOM", "PS", "NEL"}
+NonAscii == {"NA", "LS"} \cup MoreNonAscii
+Classes == {"SPC", "PCT", "AMP", "LT", "GT", "DQ", "BS", "NA", "C1", "LS"} \cup MoreNonAscii
 Comps   == {"user", "pass", "host", "path", "query", "frag", "opaque"}
 NoSp    == [comp |-> "none", cls |-> "none"]
 
@@ -33,6 +45,16 @@ Reject == <<"REJECT">>
 Pct(a, b) == <<"%", a, b>>
 EscNA == Pct("C", "3") \o Pct("A", "9")
 EscLS == Pct("E", "2") \o Pct("8", "0") \o Pct("A", "8")
+(* the percent-encoded UTF-8 bytes of the representative of a non-ASCII class *)
+EscOf(cls) == CASE cls = "NA"  -> EscNA
+                [] cls = "LS"  -> EscLS
+                [] cls = "AP"  -> Pct("F", "0") \o Pct("9", "F") \o Pct("9", "8") \o Pct("8", "0")
+                [] cls = "AN"  -> Pct("F", "3") \o Pct("A", "0") \o Pct("8", "1") \o Pct("A", "7")
+                [] cls = "AX"  -> Pct("F", "4") \o Pct("8", "F") \o Pct("B", "F") \o Pct("B", "D")
+                [] cls = "ZW"  -> Pct("E", "2") \o Pct("8", "0") \o Pct("8", "B")
+                [] cls = "BOM" -> Pct("E", "F") \o Pct("B", "B") \o Pct("B", "F")
+                [] cls = "PS"  -> Pct("E", "2") \o Pct("8", "0") \o Pct("A", "9")
+                [] cls = "NEL" -> Pct("C", "2") \o Pct("8", "5")
 
 In(cls) == IF cls = "PCT" THEN Pct("2", "F") ELSE <<cls>>
 
@@ -44,8 +66,7 @@ Out(comp, cls) ==
         (IF cls \in {"AMP", "PCT"} THEN In(cls) ELSE Reject)   \* net/url: invalid userinfo
     ELSE IF comp = "host" THEN
         (CASE cls \in {"AMP", "LT", "GT", "DQ"} -> <<cls>>
-           [] cls = "NA" -> EscNA
-           [] cls = "LS" -> EscLS
+           [] cls \in NonAscii -> EscOf(cls)
            [] OTHER -> Reject)                                 \* space, backslash, %2F: invalid host
     ELSE \* path, frag
         (CASE cls = "SPC" -> Pct("2", "0")
@@ -55,8 +76,7 @@ Out(comp, cls) ==
            [] cls = "GT"  -> Pct("3", "E")
            [] cls = "DQ"  -> Pct("2", "2")
            [] cls = "BS"  -> Pct("5", "C")
-           [] cls = "NA"  -> EscNA
-           [] cls = "LS"  -> EscLS
+           [] cls \in NonAscii -> EscOf(cls)
            [] cls = "C1"  -> Pct("0", "1"))     \* only the fragment: it is cut off before the control check
 
 ----------------------------------------------------------------------------
@@ -148,7 +168,7 @@ JsonLossless == Accepted(u) => LET t == Text(u) IN \A html \in BOOLEAN : JsonDec
 StripQuotesLossy == Accepted(u) => LET t == Text(u) IN \A html \in BOOLEAN :
     (StripQuotes(JsonEnc(t, html)) = t) = ~HasEscaped(t, html)
 (* JSON-special characters do reach the JSON layer through verbatim components. *)
-RawReachesJson == (Accepted(u) /\ u.sp.comp \in {"query", "opaque"} /\ u.sp.cls \in {"DQ", "BS", "LT", "GT", "AMP", "LS"})
+RawReachesJson == (Accepted(u) /\ u.sp.comp \in {"query", "opaque"} /\ u.sp.cls \in {"DQ", "BS", "LT", "GT", "AMP", "LS", "PS"})
                     => HasEscaped(Text(u), TRUE)
 (* The canonical text is what it was for plain URLs: String is the identity on them. *)
 PlainIsFixpoint == (u.sp = NoSp /\ u.frag # "empty") => Text(u) = Input(u)
